@@ -29,7 +29,7 @@ func init() {
 			"oracle: conservation over the issue log, nested => error, foreign recipient => error, option on => accept only inside the window with a parsable certificate, option off => same as plaintext twin; distinct = shape hash of those knobs and the outcome",
 		Directed:    c07Directed,
 		Run:         c07Run,
-		MustHit:     []string{"mode=genuine", "mode=attacker-encrypt", "mode=nested-unsigned-response", "mode=nested-signed-by-nonconforming-idp", "embed=foreign", "embed=sp", "clock=nb-1ns", "clock=nb", "clock=na", "clock=na+1ns", "validate_on", "validate_off", "keyfault=empty-cert", "keyfault=garbage-cert", "keyfault=keystore-error", "key=setter", "key=field", "key=tls", "tls_leaf_differs", "clock_jump_past_sp_cert_window"},
+		MustHit:     []string{"mode=genuine", "mode=attacker-encrypt", "mode=nested-unsigned-response", "mode=nested-signed-by-nonconforming-idp", "embed=foreign", "embed=sp", "clock=nb-1ns", "clock=nb", "clock=na", "clock=na+1ns", "validate_on", "validate_off", "keyfault=empty-cert", "keyfault=garbage-cert", "keyfault=keystore-error", "key=setter", "key=field", "key=tls", "tls_leaf_differs", "clock_jump_past_sp_cert_window", "same_payload_offered_to_an_sp_holding_another_key"},
 		RandomRuns:  map[string]int{"quick": 6000, "thorough": 60000},
 		Assumptions: []string{"encrypted layouts run with signature checking on (with checking off the library never decrypts)"},
 	})
@@ -257,6 +257,26 @@ func c07Run(r *core.Run) {
 			r.Fail("placement", "C07/nested-encrypted-assertion-accepted/"+mode, ctx)
 		}
 		return
+	}
+	// the accepted payload is then handed to a service provider of the same process that is configured like
+	// this one but holds another decryption key (a second tenant, or this tenant after its key was replaced):
+	// it cannot unwrap the key, so it cannot accept - whatever the first one has seen before
+	if mode == "genuine" && keyFault == "none" && embed != "foreign" && out.OK() && t.Int(4, "c07.otherkey") == 1 {
+		cfg2 := *s.Cfg
+		cfg2.Live, cfg2.Name = false, "sp-holding-another-key"
+		cfg2.EncKeyIdx = 9 - spKey // 4 <-> 5
+		cfg2.EncCert = world.MintCert(cfg2.EncKeyIdx, nb, na, 1)
+		cfg2.RejectedSetters = 0
+		if n2, err := world.NewSPNode(&cfg2, r.Sim.Time); err == nil {
+			_, o2 := n2.ValidateResponse(enc)
+			r.Steps++
+			r.Fault("same_payload_offered_to_an_sp_holding_another_key")
+			r.Logf("same payload at an SP holding another key -> %s %s", o2.Class(), world.ErrClass(o2.Err))
+			if o2.Panic == "" && o2.OK() {
+				r.Fail("recipient", "C07/decrypted-by-an-sp-that-does-not-hold-the-key", ctx)
+				return
+			}
+		}
 	}
 	// history on one live SP: after an accepted delivery inside the window the clock jumps past
 	// NotAfter and a fresh genuine message arrives: with the option on it must now be refused
